@@ -85,6 +85,24 @@ NEEDS.update({
  'C16-6': ("C16","a prerelease with non-zero minor or patch against a release of a higher major with non-zero minor or patch (`1.1.0-1` vs `2.0.1`)",""),
  'C17-6': ("C17","an error on a line that begins with whitespace (`\" 1.2\"`: column shifted by the indentation; `\"  foo\"` for Range: subtraction overflow)",""),
  'C18-6': ("C18","a component exactly equal to MAX_SAFE_INTEGER (`>=` for `>` in number())",""),
+ 'C01-7': ("C01","three or more space-joined comparators with a contradiction that is not in last position (`>2 <1 1.5.0`): a fold that restarts after an empty intersection (same idea as C02-5, found independently)",""),
+ 'C02-7': ("C02","a set whose lower and upper bound are both tagged, on different releases, and a prerelease of the upper bound's release (`>=1.0.0-alpha <2.0.0-rc` with 2.0.0-beta): only the first tagged bound consulted",""),
+ 'C03-7': ("C03","the constructed value `Range::any()` (both ends unbounded, not obtainable from parse): early `return true` before the prerelease gate",""),
+ 'C04-7': ("C04","a first prerelease identifier that begins with a hyphen (`1.0.0--1` parsed as `1.0.0-1`): any run of leading hyphens taken as the separator","caught by C05/C12 at once; MISSED by C04 (no identifier of its universe began with a hyphen except the lone `-`); caught after adding `-1`, `-a`, `--` to the identifier alphabet (the parsed twins of the universe texts then disagree with the reference order)"),
+ 'C05-7': ("C05","a well-formed version longer than MAX_LENGTH through `str::parse` / serde (the guard stayed in the generic wrapper that FromStr bypasses)",""),
+ 'C06-7': ("C06","caret or tilde with a wildcard minor and a numeric patch (`^1.x.3`): normalisation slip + dead arm turned into unreachable!()",""),
+ 'C07-7': ("C07","the parsed wildcard `*` (= `>=0.0.0`) intersected with a range whose lower end lies below `>=0.0.0` (`<1.0.0`, `>=0.0.0-rc.1`): `*` taken as the identity",""),
+ 'C08-7': ("C08","B an exact prerelease version lying inside A's bounds while A has no tag on that triple (`>=1.0.0` minus `1.2.3-alpha`): fast path asking satisfies instead of bounds",""),
+ 'C09-7': ("C09","a hyphen range written the wrong way round as one alternative (`3.0.0 - 1.0.0 || 9.0.0`) stored as an inverted interval (constructor bypassing BoundSet::new); allows_any true, intersect None","caught by C13 at once; MISSED by C09 (no leaf was written as a reversed or contradictory alternative); caught after adding such spellings to every leaf set"),
+ 'C10-7': ("C10","A with lower bound `>=0.0.0[-tag]` (`*`) and B open below with an upper bound among the prereleases of 0.0.0 (`<0.0.0-5`): Bound::cmp treating the 0.0.0 floor as unbounded",""),
+ 'C11-7': ("C11","an exclusive release lower bound one patch below an inclusive prerelease upper bound (`>1.0.0 <=1.0.1-beta`): the bound itself instead of the `-0` floor as candidate",""),
+ 'C12-7': ("C12","a version BUILT with a numeric build identifier (`build: [Numeric(7)]`) against its parse (build identifiers kept verbatim as alphanumeric by the parser)",""),
+ 'C13-7': ("C13","an inclusive lower bound `>=0.0.0-0` (parsed, or produced by subtracting an empty range) printed as if unbounded",""),
+ 'C14-7': ("C14","two or more alternatives with a tagged comparator that is not the overall lowest / highest bound (`^1.0.0 || ^2.0.0-rc.1`): span pre-filter applying the prerelease gate",""),
+ 'C15-7': ("C15","a `-0` tag on an exclusive lower bound or a tagged upper bound over a `-0` ceiling in a difference (`>=1.0.0` minus `>2.0.0-0`): flip stripping the `-0`",""),
+ 'C16-7': ("C16","same change as C04-7, observed through diff (`1.0.0--1` vs `1.0.0-1` reported equal)","caught by C05/C12 at once; MISSED by C16 (its universe is built from values, so a parser slip was invisible); caught after adding hyphen-led tags and the parsed twin of every universe text to C16"),
+ 'C17-7': ("C17","same change as C05-7; the over-long input is accepted through FromStr, so no error exists whose accessors C17 could inspect","not flagged by C17 on purpose: C17 speaks about the errors of Version::parse / Range::parse, which are unchanged; C05 (whose observation points include str::parse and serde) flags it"),
+ 'C18-7': ("C18","a prerelease number containing the digit 9 (`'0'..'9'` exclusive range in the identifier character set)",""),
  'C06-5': ("C06","a minuend with an exclusive release lower bound `>a` and a subtrahend that starts exactly at the `-0` floor of the next patch and ends strictly inside (BoundSet::new refuses `>X.Y.Z <X.Y.(Z+1)-0`, difference unwraps)","MISSED at first (no leaf set held both `X.Y.Z` and `X.Y.(Z+1)-0`); caught after adding the -0 floor of the next patch to the exotic and thorough leaf sets; C08 and C15 alarm as well"),
  'C06-4': ("C06","range bounds carrying build metadata in a two-sided difference (derived PartialEq compares build; unwrap on None)",""),
  'C07-4': ("C07","inclusive bounds meeting at one version whose build metadata differs (`>=1.2.3+build.5` with `<=1.2.3`)",""),
@@ -134,11 +152,12 @@ for sid,(prop,needs,note) in sorted(NEEDS.items()):
           "source":"independent sub-agent given only the property text and a scratch worktree of /repo",
           "confirmed":"tools/seedconfirm.sh: existing suite 133/133 + 5 doctests pass with the change; seeded_demo.rs fails with it and passes without it",
           "evaluated":"tools/seedmatrix.sh: patch applied to a scratch worktree of /repo HEAD, all 18 quick checks run against it (tools/seedeval.sh)",
+          "evaluated_on_repo_commit":(open(f'{d}/base.txt').read().strip() if os.path.exists(f'{d}/base.txt') else "HEAD"),
           "quick_checks_alarming":det,"detected_by_own_property":prop in det,"history":note}
     json.dump(meta,open(f'{d}/meta.json','w'),indent=1,ensure_ascii=False)
     rows.append((sid,prop,needs,det,note))
 with open('/verif/seeded/README.md','w') as f:
-    f.write("# Seeded property-breaking changes\n\nEach directory holds `patch.diff` (against /repo HEAD), the sub-agent's demonstration `seeded_demo.rs` (an integration test that fails with the change and passes without it), `meta.json` and `detected.txt` (output of the 18 quick checks on a scratch worktree with the change). Every change compiles and passes the repository's own 133 unit tests + 5 doctests.\n\n| seed | breaks | needs | quick checks that alarm | history |\n|---|---|---|---|---|\n")
+    f.write("# Seeded property-breaking changes\n\nEach directory holds `patch.diff` (against /repo HEAD, or against the commit named in `base.txt` where a later `fix:` commit touched the same lines), the sub-agent's demonstration `seeded_demo.rs` (an integration test that fails with the change and passes without it), `meta.json` and `detected.txt` (output of the 18 quick checks on a scratch worktree with the change). Every change compiles and passes the repository's own 133 unit tests + 5 doctests.\n\n| seed | breaks | needs | quick checks that alarm | history |\n|---|---|---|---|---|\n")
     for sid,prop,needs,det,note in rows:
         f.write(f"| {sid} | {prop} | {needs} | {' '.join(det) if det else '(not evaluated yet)'} | {note} |\n")
 print(len(rows),"seeds")
